@@ -1,7 +1,7 @@
 //! Storage backend that collects draws and statistics into in-memory ndarray arrays.
 
 use anyhow::{Context, Result};
-use ndarray::{ArrayD, IxDyn};
+use ndarray::{ArrayD, Axis, IxDyn};
 use nuts_storable::{ItemType, Value};
 use std::collections::HashMap;
 use std::sync::{Arc, Mutex};
@@ -62,10 +62,11 @@ impl NdarrayValue {
             (NdarrayValue::F64(arr), Value::F64(v)) => {
                 // For vector values, we need to handle the extra dimensions
                 if indices.len() == 2 {
-                    // Simple case: just set the slice
-                    let mut view = arr.slice_mut(ndarray::s![indices[0], indices[1], ..]);
-                    for (i, val) in v.iter().enumerate() {
-                        view[i] = *val;
+                    // Set the (possibly multi-dimensional) row in logical order
+                    let mut view = arr.index_axis_mut(Axis(0), indices[0]);
+                    let view = view.index_axis_mut(Axis(0), indices[1]);
+                    for (dst, val) in view.into_iter().zip(v.iter()) {
+                        *dst = *val;
                     }
                 } else {
                     return Err(anyhow::anyhow!(
@@ -75,9 +76,10 @@ impl NdarrayValue {
             }
             (NdarrayValue::F32(arr), Value::F32(v)) => {
                 if indices.len() == 2 {
-                    let mut view = arr.slice_mut(ndarray::s![indices[0], indices[1], ..]);
-                    for (i, val) in v.iter().enumerate() {
-                        view[i] = *val;
+                    let mut view = arr.index_axis_mut(Axis(0), indices[0]);
+                    let view = view.index_axis_mut(Axis(0), indices[1]);
+                    for (dst, val) in view.into_iter().zip(v.iter()) {
+                        *dst = *val;
                     }
                 } else {
                     return Err(anyhow::anyhow!(
@@ -87,9 +89,10 @@ impl NdarrayValue {
             }
             (NdarrayValue::Bool(arr), Value::Bool(v)) => {
                 if indices.len() == 2 {
-                    let mut view = arr.slice_mut(ndarray::s![indices[0], indices[1], ..]);
-                    for (i, val) in v.iter().enumerate() {
-                        view[i] = *val;
+                    let mut view = arr.index_axis_mut(Axis(0), indices[0]);
+                    let view = view.index_axis_mut(Axis(0), indices[1]);
+                    for (dst, val) in view.into_iter().zip(v.iter()) {
+                        *dst = *val;
                     }
                 } else {
                     return Err(anyhow::anyhow!(
@@ -99,9 +102,10 @@ impl NdarrayValue {
             }
             (NdarrayValue::I64(arr), Value::I64(v)) => {
                 if indices.len() == 2 {
-                    let mut view = arr.slice_mut(ndarray::s![indices[0], indices[1], ..]);
-                    for (i, val) in v.iter().enumerate() {
-                        view[i] = *val;
+                    let mut view = arr.index_axis_mut(Axis(0), indices[0]);
+                    let view = view.index_axis_mut(Axis(0), indices[1]);
+                    for (dst, val) in view.into_iter().zip(v.iter()) {
+                        *dst = *val;
                     }
                 } else {
                     return Err(anyhow::anyhow!(
@@ -111,9 +115,10 @@ impl NdarrayValue {
             }
             (NdarrayValue::U64(arr), Value::U64(v)) => {
                 if indices.len() == 2 {
-                    let mut view = arr.slice_mut(ndarray::s![indices[0], indices[1], ..]);
-                    for (i, val) in v.iter().enumerate() {
-                        view[i] = *val;
+                    let mut view = arr.index_axis_mut(Axis(0), indices[0]);
+                    let view = view.index_axis_mut(Axis(0), indices[1]);
+                    for (dst, val) in view.into_iter().zip(v.iter()) {
+                        *dst = *val;
                     }
                 } else {
                     return Err(anyhow::anyhow!(
